@@ -274,14 +274,19 @@ impl System for ShSys {
 		if r.values().len() != size.0 as usize || r.signals().len() != size.1 as usize || r.size() != size || r.values_length() != size.0 || r.signals_length() != size.1 || st.size() != size {
 			return Step::Violation(Failure::new(format!("{name}/shape/size"), format!("size() = {size:?}, result has {} values and {} signals", r.values().len(), r.signals().len())));
 		}
-		for i in 0..size.0 as usize {
-			if r.value(i).to_bits() != r.values()[i].to_bits() {
-				return Step::Violation(Failure::new(format!("{name}/shape/value-accessor"), String::new()));
+		// indexed accessors: inside the announced size they return the slice element, beyond it they panic (documented)
+		for i in 0..IndicatorResult::SIZE + 1 {
+			match catch(|| r.value(i)) {
+				Ok(v) if i < size.0 as usize && v.to_bits() == r.values()[i].to_bits() => {}
+				Err(_) if i >= size.0 as usize => {}
+				Ok(v) => return Step::Violation(Failure::new(format!("{name}/shape/value-accessor"), format!("value({i}) returned {v:?} with {} values", size.0))),
+				Err(p) => return Step::Violation(Failure::new(format!("{name}/shape/value-accessor"), format!("value({i}) panicked with {} values: {}", size.0, p.msg))),
 			}
-		}
-		for i in 0..size.1 as usize {
-			if format!("{:?}", r.signal(i)) != format!("{:?}", r.signals()[i]) {
-				return Step::Violation(Failure::new(format!("{name}/shape/signal-accessor"), String::new()));
+			match catch(|| r.signal(i)) {
+				Ok(v) if i < size.1 as usize && format!("{v:?}") == format!("{:?}", r.signals()[i]) => {}
+				Err(_) if i >= size.1 as usize => {}
+				Ok(v) => return Step::Violation(Failure::new(format!("{name}/shape/signal-accessor"), format!("signal({i}) returned {v:?} with {} signals", size.1))),
+				Err(p) => return Step::Violation(Failure::new(format!("{name}/shape/signal-accessor"), format!("signal({i}) panicked with {} signals: {}", size.1, p.msg))),
 			}
 		}
 		if st.name() != name {
